@@ -432,9 +432,10 @@ func (e *c13Errs) take() []string {
 }
 
 type c13Proc struct {
-	s    *Default
-	hp   *hashprefix.Filter
-	errs *c13Errs
+	s      *Default
+	hp     *hashprefix.Filter
+	errs   *c13Errs
+	probes int
 }
 
 func c13Paths(dir string) map[string]string {
@@ -549,6 +550,10 @@ var c13ResultID = map[string]filter.ID{
 // completely, -1 anything else.
 func c13Probe(t testing.TB, p *c13Proc, maxVer int) (served map[string]int, detail string) {
 	served = map[string]int{}
+	// besides the first and the last host of a text, one host from its middle
+	// that this process was never asked about (no result cache can know it)
+	p.probes++
+	parts := []string{"head", "tail", fmt.Sprintf("pad%d", p.probes%c13PadLines)}
 	ctx := context.Background()
 	f := p.s.ForConfig(ctx, c13FltConf)
 	var odd []string
@@ -556,8 +561,14 @@ func c13Probe(t testing.TB, p *c13Proc, maxVer int) (served map[string]int, deta
 		var hits []string
 		vers := map[int]int{}
 		for v := 1; v <= maxVer; v++ {
-			for _, part := range []string{"head", "tail"} {
+			for _, part := range parts {
 				host := c13Host(l, v, part)
+				if strings.HasPrefix(part, "pad") {
+					if l == "sidx" {
+						continue
+					}
+					host = fmt.Sprintf("%s.%s-v%d.c13pad.example", part, l, v)
+				}
 				r, err := f.FilterRequest(ctx, filtertest.NewARequest(t, host))
 				if err != nil {
 					hits = append(hits, fmt.Sprintf("%s:error:%v", host, err))
@@ -582,7 +593,7 @@ func c13Probe(t testing.TB, p *c13Proc, maxVer int) (served map[string]int, deta
 			served[l] = 0
 		case len(vers) == 1 && vers[-1] == 0:
 			for v, n := range vers {
-				if n == 2 {
+				if n == len(parts) || (l == "sidx" && n == 2) {
 					served[l] = v
 				} else {
 					served[l] = -1
@@ -870,11 +881,12 @@ func c13Directed() (behs []c13Beh) {
 // random fault sequences.
 func TestVerifC13Stepper(t *testing.T) {
 	out := vhOpen(t)
-	var behs []c13Beh
+	behs := c13Directed()
 	if p := os.Getenv("VERIF_IN"); p != "" {
-		vhReadJSON(t, p, &behs)
+		var fromTLC []c13Beh
+		vhReadJSON(t, p, &fromTLC)
+		behs = append(behs, fromTLC...)
 	}
-	behs = append(behs, c13Directed()...)
 	rng := rand.New(rand.NewSource(vhSeed()))
 	for i, n := 0, vhEnvInt("VERIF_NRANDOM", 10); i < n; i++ {
 		rounds := 2 + rng.Intn(2)
